@@ -6,6 +6,11 @@
     (outcome, effects, world after) and (ii) the documented policy as a Python decision table
     (`c10_dep.Policy`) plus the three direct clauses (forced => system not consulted, nofallback =>
     nothing configured, repeated lookups agree).
+(c) `coredata.DependencyCache` (real object over a real OptionStore) on histories of option changes / put / get / clear on both
+    machines, against the Lean model `MesonModel.DepPolicy.Cache` (type -> option table re-extracted from the live source)
+    and the cache clause read directly; the lookups of (a) run over the real DependencyCache, with entries left by earlier
+    configurations under other search paths and `--reconfigure` steps inside a sequence; a real
+    `meson setup` / `--reconfigure -Dpkg_config_path=…` leg runs in every tier.
 (b) `wrap.Resolver.resolve` (real code, in-process) on local fixtures with every corruption class at each
     acquisition location and a fault at each step, against the Lean step machine
     `MesonModel.DepPolicy.Wrap.resolve` and the three wrap clauses evaluated on what really happened.
@@ -17,6 +22,9 @@ Readings of the documents where they are silent (kept identical in the Lean `pol
  R2  with `allow_fallback` unset and an optional lookup a wrap `[provide]` entry is still the fallback
      when its subproject is already part of the build;
  R3  names are tried in order; for each, an override first, then a dependency cached from a previous run.
+ R5  a result cached by an earlier configuration (CoreData.deps) is reused only while the search path that produced it is
+     unchanged: pkg_config_path for pkg-config results, cmake_prefix_path for CMake results, neither for the others;
+     `--clearcache` forgets everything; a change of the other option does not invalidate.
  R4  overrides and remembered results are per identifier: name + `static` flavour + the other identifying keywords of
      dependency() (harvested from `get_dep_identifier` on every run; `method` does not identify an override).
      meson.override_dependency(static: s) in a project with default_library dl answers a lookup with `static: σ` iff
@@ -43,6 +51,7 @@ from . import common
 from .common import Ctx
 from . import c10_dep as D
 from . import c10_wrap as WR
+from . import c10_cache as CA
 
 ID = 'C10'
 LEVEL = 'proof'
@@ -69,6 +78,9 @@ PINS = [
     'mesonbuild.interpreter.mesonmain:MesonMain.override_dependency_method',
     'mesonbuild.interpreter.mesonmain:MesonMain._override_dependency_impl',
     'mesonbuild.dependencies.detect:get_dep_identifier',
+    'mesonbuild.coredata:DependencyCache',
+    'mesonbuild.coredata:DependencySubCache',
+    'mesonbuild.coredata:DependencyCacheType',
 ]
 TRUSTED = [
     'stubs of find_external_dependency / Interpreter.do_subproject (its build file = a list of real meson.override_dependency calls) / Resolver.find_dep_provider+get_varname in harness/c10_dep.py '
@@ -93,9 +105,15 @@ VU = ['vu', True, 'undefined']
 VNF = ['vnf', False, 'undefined']
 SUBC = [({'foo': D2}, {}), ({'foo': D1}, {}), ({'foo': DNF}, {}), ({}, {'foo_dep': V2}), ({}, {'foo_dep': V1}),
         ({}, {'foo_dep': VU}), ({}, {'foo_dep': VNF}), ({}, {'foo_dep': 'notdep'}), ({}, {})]
-PRE = [({}, {}), ({'foo': [['o2', True, '2.0'], True]}, {}), ({'foo': [['o1', True, '1.0'], True]}, {}),
-       ({'foo': [['onf', False, 'undefined'], True]}, {}), ({}, {'foo': ['sys:foo@1.0', True, '1.0']}),
-       ({}, {'foo': ['sys:foo@2.0', True, '2.0']})]
+CUR_PATHS = {'pkg': ['/pa'], 'cmake': []}
+OLD_PKG = {'pkg': ['/old'], 'cmake': []}          # an earlier configuration searched pkg-config files elsewhere
+OLD_CMAKE = {'pkg': ['/pa'], 'cmake': ['/oldc']}   # ... or only had another cmake_prefix_path (irrelevant to pkg-config results)
+# (overrides made by the main project, cache entries stored under the present paths, entries stored by earlier configurations)
+PRE = [({}, {}, []), ({'foo': [['o2', True, '2.0'], True]}, {}, []), ({'foo': [['o1', True, '1.0'], True]}, {}, []),
+       ({'foo': [['onf', False, 'undefined'], True]}, {}, []), ({}, {'foo': ['sys:foo@1.0', True, '1.0']}, []),
+       ({}, {'foo': ['sys:foo@2.0', True, '2.0']}, []),
+       ({}, {}, [('foo', ['sys:foo@1.0', True, '1.0'], OLD_PKG)]), ({}, {}, [('foo', ['sys:foo@2.0', True, '2.0'], OLD_PKG)]),
+       ({}, {}, [('foo', ['sys:foo@2.0', True, '2.0'], OLD_CMAKE)])]
 FBK = ['none', 'x1', 'x2', 'empty', 'p0', 'pv', 'x1pv']
 FB_OF = {'none': None, 'x1': ['foosub'], 'x2': ['foosub', 'foo_dep'], 'empty': [], 'p0': None, 'pv': None, 'x1pv': ['foosub']}
 SYSV = [None, '1.0', '2.0']
@@ -110,8 +128,10 @@ RST = [None, True, False]             # `static:` keyword of the lookup
 
 
 def cell(sysv, fbk, sst, sc, pre, wm, fff, wanted, req, allow, opst, dl, rst) -> T.Optional[T.Tuple[dict, dict]]:
-    fw = {'wrap_mode': wm, 'fff': list(fff), 'main_dl': dl, 'ops': [], 'cache': dict(pre[1]),
+    fw = {'wrap_mode': wm, 'fff': list(fff), 'main_dl': dl, 'ops': [], 'paths': json.loads(json.dumps(CUR_PATHS)),
           'system': {} if sysv is None else {'foo': sysv}, 'provides': {}, 'subprojects': {}}
+    fw['history'] = [{'name': n, 'dep': d, 'paths': json.loads(json.dumps(CUR_PATHS))} for n, d in pre[1].items()] + \
+                    [{'name': n, 'dep': d, 'paths': json.loads(json.dumps(pa))} for n, d, pa in pre[2]]
     for n, (d, _explicit) in pre[0].items():
         fw['ops'].append({'name': n, 'dep': d, 'static': opst, 'native': False})
     if fbk == 'p0':
@@ -157,20 +177,27 @@ def rdep(rng, tag):
     return [f'{tag}{rng.randint(0, 3)}@{v}' if f else f'{tag}nf{rng.randint(0, 1)}', f, v]
 
 
+def rpaths(rng) -> dict:
+    return {'pkg': rng.choice([[], ['/pa'], ['/pb'], ['/pa', '/pb']]), 'cmake': rng.choice([[], [], ['/ca'], ['/pa']])}
+
+
 def rop(rng, name, tag) -> dict:
     return {'name': name, 'dep': rdep(rng, tag), 'static': rng.choice([None, None, True, False]), 'native': rng.random() < 0.1}
 
 
 def rworld(rng) -> dict:
     fw = {'wrap_mode': rng.choice(D.WRAP_MODES), 'fff': rng.choice([[], [], ['foo'], ['foosub'], ['bar', 'foo'], ['barsub']]),
-          'main_dl': rng.choice(DLIB), 'ops': [], 'cache': {}, 'system': {}, 'provides': {}, 'subprojects': {}}
+          'main_dl': rng.choice(DLIB), 'ops': [], 'history': [], 'paths': rpaths(rng), 'system_type': {},
+          'system': {}, 'provides': {}, 'subprojects': {}}
     table: dict = {}
     for n in NAMES:
+        fw['system_type'][n] = rng.choice(['pkgconfig', 'pkgconfig', 'cmake', 'other'])
         if rng.random() < 0.4:
             fw['system'][n] = rng.choice(VERS[:2])
-        if rng.random() < 0.15:
+        for _ in range(rng.choice([0, 0, 0, 1, 1, 2])):
             v = rng.choice(VERS[:2])
-            fw['cache'][n] = [f'sys:{n}@{v}', True, v]
+            fw['history'].append({'name': n, 'dep': [f'sys:{n}@{v}', True, v],
+                                  'paths': json.loads(json.dumps(fw['paths'])) if rng.random() < 0.4 else rpaths(rng)})
         for _ in range(rng.choice([0, 0, 0, 1, 1, 2])):
             op = rop(rng, n, 'o')
             t = D.register_ops(table, [op], fw['main_dl'])
@@ -225,6 +252,12 @@ def rseq(rng) -> T.Tuple[dict, T.List[dict]]:
         reqs[rng.randrange(1, len(reqs))] = dict(reqs[0])
     if len(reqs) == 3 and rng.random() < 0.2:
         reqs[2] = dict(reqs[0])
+    if rng.random() < 0.3:
+        # a history across configurations: reconfigure with other search paths / another system / --clearcache
+        op = {'op': 'reconfigure', 'paths': rpaths(rng) if rng.random() < 0.8 else json.loads(json.dumps(w['paths'])),
+              'system': {n: rng.choice(VERS[:2]) for n in NAMES if rng.random() < 0.5}, 'clearcache': rng.random() < 0.15}
+        k = rng.randint(1, len(reqs))
+        reqs = reqs[:k] + [op] + [dict(r) for r in (reqs[k:] or reqs[:1])] + ([dict(reqs[0])] if rng.random() < 0.5 else [])
     return w, reqs
 
 
@@ -268,11 +301,19 @@ def eval_seq(item: T.Tuple[dict, T.List[dict]]):
                      'after the meson.override_dependency() calls the override table is not what "follows default_library" '
                      f'prescribes: missing {missing} unexpected {extra}', -1))
     for i, r in enumerate(reqs):
+        if r.get('op') == 'reconfigure':
+            s.reconfigure(r)
+            p.reconfigure(r)
+            outs = [None] * len(outs)       # the repeat clause speaks of one configuration
+            outs.append(None)
+            if D.canon_state(s.state()) != D.canon_state(p.state):
+                hits.append(('policy-state', 'state at the start of the next configuration differs from what the policy prescribes', i))
+            continue
         before = s.state()
-        wb = D.make_slice(fw, before, r)
+        wb = D.make_slice(s.world, before, r)
         out, eff = s.lookup(r)
         after = s.state()
-        wa = D.make_slice(fw, after, r)
+        wa = D.make_slice(s.world, after, r)
         pt = dict(p.state['table'])
         pout = p.decide(r)
         sp = D.Policy(wb)
@@ -307,7 +348,7 @@ def eval_seq(item: T.Tuple[dict, T.List[dict]]):
                     elif any(e.startswith(('system:', 'configure:')) for e in eff):
                         hits.append(('override-does-not-win', 'the name is overridden but the lookup went on: ' + ','.join(eff), i))
         for j in range(i):
-            if reqs[j] == r:
+            if reqs[j] == r and outs[j] is not None:
                 if outs[j].startswith('found:') and cls != outs[j]:
                     hits.append(('repeat-differs', f'same arguments returned {outs[j]} then {cls}', i))
                 if j == i - 1 and cls != outs[j]:
@@ -595,6 +636,99 @@ def run_wrap(ctx: Ctx) -> None:
         ctx.sample({'kind': 'wrap', 'case': c})
 
 
+# ------------------------------------------------------------------------------------------ (c) the dependency cache
+
+def gen_tables(ctx: Ctx) -> None:
+    CA.gen_table_file(ctx)
+
+
+def run_cache(ctx: Ctx) -> None:
+    """the real coredata.DependencyCache over a real OptionStore: op sequences against the property read directly
+    and against the Lean model (which uses the type -> option table extracted from the live source)"""
+    rng = ctx.rng
+    seqs = CA.exhaustive_ops()
+    n_ex = len(seqs)
+    for k in range(20000 if ctx.tier == 'thorough' else ctx.scale(2500, 8000)):
+        seqs.append(CA.rand_ops(rng, rng.randint(4, 16), k % 2 == 0))
+    results = [x for part in pool_map(CA.eval_chunk, seqs, 500) for x in part]
+    ctx.count(len(seqs))
+    ctx.extra['cache_sequences_exhaustive'] = n_ex
+    ctx.extra['cache_sequences_random'] = len(seqs) - n_ex
+    for ops, (canon, hits) in zip(seqs, results):
+        ctx.tag('cache:hit' if any(a != '-' for a in canon.split(',')) else 'cache:miss-only')
+        for cls, msg, i in hits:
+            case = {'kind': 'cache', 'ops': ops, 'at': i}
+            ctx.violation(vkey(cls, case), f'{cls}: {msg}', case)
+    if ctx.model_available:
+        answers = ctx.driver('dep', [CA.enc_ops(o) for o in seqs])
+        for ops, (canon, _h), ans in zip(seqs, results, answers):
+            if canon != ans:
+                ctx.disagreement({'kind': 'cache', 'ops': ops, 'impl': canon, 'model': ans})
+            ctx.seen_nontrivial(('cache', ans, len(ops)))
+
+
+def run_e2e_reconfigure(ctx: Ctx, variants: T.List[str]) -> None:
+    """real `meson setup --backend=none` then `--reconfigure` with another pkg_config_path / an empty one /
+    another cmake_prefix_path / --clearcache: every configuration must answer dependency('c10foo') from what the
+    system offers NOW (documented policy in the world of the current configuration), else the wrap [provide] fallback"""
+    meson = [sys.executable, os.path.join(common.REPO, 'meson.py')]
+    for variant in variants:
+        root = common.scratch_dir('mverif-c10r-')
+        try:
+            src, bld = os.path.join(root, 'src'), os.path.join(root, 'b')
+            dirs = {k: os.path.join(root, 'pc_' + k) for k in ('a', 'b', 'empty')}
+            for k, d in dirs.items():
+                os.makedirs(d)
+            for k, ver in (('a', '1.0'), ('b', '2.0')):
+                with open(os.path.join(dirs[k], 'c10foo.pc'), 'w') as f:
+                    f.write(f'Name: c10foo\nDescription: x\nVersion: {ver}\nLibs:\nCflags:\n')
+            os.makedirs(os.path.join(src, 'subprojects', 'c10sub'))
+            with open(os.path.join(src, 'meson.build'), 'w') as f:
+                f.write("project('main', 'c')\nd = dependency('c10foo', method: 'pkg-config', required: false, allow_fallback: true)\n"
+                        "message('RESULT found=@0@ version=@1@'.format(d.found(), d.found() ? d.version() : '-'))\n")
+            with open(os.path.join(src, 'subprojects', 'c10sub', 'meson.build'), 'w') as f:
+                f.write("project('c10sub', 'c', version: '9.9')\nmeson.override_dependency('c10foo', declare_dependency(version: '9.9'))\n")
+            with open(os.path.join(src, 'subprojects', 'c10sub.wrap'), 'w') as f:
+                f.write('[wrap-file]\ndirectory = c10sub\n\n[provide]\ndependency_names = c10foo\n')
+            env = dict(os.environ)
+            env['PYTHONPATH'] = common.REPO
+            env['CMAKE'] = os.path.join(root, 'no-cmake-here')
+            for k in ('PKG_CONFIG_PATH', 'PKG_CONFIG_LIBDIR', 'CMAKE_PREFIX_PATH'):
+                env.pop(k, None)
+            env['PKG_CONFIG_LIBDIR'] = dirs['empty']
+            # (arguments, what the system offers under them)
+            plan = [(['setup', '--backend=none', f'-Dpkg_config_path={dirs["a"]}', bld, src], '1.0')]
+            if variant == 'pkg-path':
+                plan += [(['setup', '--reconfigure', f'-Dpkg_config_path={dirs["b"]}', bld, src], '2.0'),
+                         (['setup', '--reconfigure', f'-Dpkg_config_path={dirs["empty"]}', bld, src], None),
+                         (['setup', '--reconfigure', f'-Dpkg_config_path={dirs["a"]}', bld, src], '1.0')]
+            elif variant == 'cmake-path':
+                plan += [(['setup', '--reconfigure', f'-Dcmake_prefix_path={dirs["b"]}', bld, src], '1.0')]
+            elif variant == 'clearcache':
+                plan += [(['setup', '--reconfigure', '--clearcache', f'-Dpkg_config_path={dirs["b"]}', bld, src], '2.0')]
+            elif variant == 'configure':
+                plan += [(['configure', f'-Dpkg_config_path={dirs["b"]}', bld], 'skip'),
+                         (['setup', '--reconfigure', bld, src], '2.0')]
+            for n, (args, sysver) in enumerate(plan):
+                p = subprocess.run(meson + args, env=env, stdout=subprocess.PIPE, stderr=subprocess.STDOUT, text=True, timeout=300)
+                ctx.count()
+                if sysver == 'skip':
+                    continue
+                got = [l.split('RESULT ')[1].strip() for l in p.stdout.splitlines() if 'RESULT ' in l]
+                # allow_fallback: true — nothing on the system now => the wrap [provide] fallback (9.9)
+                exp = f'found=true version={sysver}' if sysver else 'found=true version=9.9'
+                ctx.tag('e2e:reconfigure-' + variant)
+                case = {'kind': 'e2e-reconfigure', 'variant': variant, 'step': n, 'args': [a.replace(root, '<tmp>') for a in args]}
+                if p.returncode != 0 or not got:
+                    ctx.violation(vkey('e2e-reconfigure-error', case), f'meson failed: {p.stdout[-300:]}', case)
+                elif got[0] != exp:
+                    ctx.violation(vkey('e2e-stale-cache', case),
+                                  f'end-to-end, configuration {n} ({" ".join(case["args"][:3])}): dependency(\'c10foo\') gave "{got[0]}", '
+                                  f'the system of this configuration prescribes "{exp}"', case)
+        finally:
+            common.rmtree(root)
+
+
 # ------------------------------------------------------------------------------------------ end-to-end (thorough)
 
 def e2e_project(root: str, sysver: T.Optional[str], call: str, sub_version: str = '3.0') -> T.Dict[str, str]:
@@ -763,6 +897,8 @@ def run(ctx: Ctx) -> None:
                 'Non-trivial = distinct model answers (outcome+effects+state), excluding argument errors.')
     witness_method_kwarg(ctx)
     run_dep(ctx)
+    run_cache(ctx)
+    run_e2e_reconfigure(ctx, ['pkg-path'] if ctx.tier != 'thorough' else ['pkg-path', 'cmake-path', 'clearcache', 'configure'])
     run_wrap(ctx)
     if ctx.tier == 'thorough':
         run_e2e(ctx)
@@ -815,6 +951,12 @@ def search(ctx: Ctx, disagreements: T.List[dict]) -> None:
         for cls, msg, i in hits:
             case = {'kind': 'dep', 'world': w, 'requests': reqs, 'at': i}
             ctx.violation(vkey(cls, case), f'{cls}: {msg}', case)
+    # the dependency cache: more histories, type-stable and not
+    cseqs = [CA.rand_ops(rng, rng.randint(4, 18), k % 2 == 0) for k in range(6000)] + CA.exhaustive_ops()
+    for ops, (_canon, hits) in zip(cseqs, [x for part in pool_map(CA.eval_chunk, cseqs, 500) for x in part]):
+        for cls, msg, i in hits:
+            case = {'kind': 'cache', 'ops': ops, 'at': i}
+            ctx.violation(vkey(cls, case), f'{cls}: {msg}', case)
     wraps += [rcase(rng) for _ in range(600)]
     for c, (_canon, hits) in zip(wraps, [x for part in pool_map(wrap_chunk, wraps, 40) for x in part]):
         for cls, msg in hits:
@@ -833,6 +975,14 @@ def replay(ctx: Ctx, rep: dict) -> None:
             print('model :', ctx.driver('dep', lines))
         for cls, msg, i in hits:
             ctx.violation(vkey(cls, {'kind': 'dep', 'world': case['world'], 'requests': case['requests'], 'at': i}), f'{cls}: {msg}', case)
+    elif case.get('kind') == 'cache':
+        canon, hits = CA.eval_ops(case['ops'])
+        print('impl  :', canon)
+        print('oracle:', hits or 'ok')
+        if ctx.model_available:
+            print('model :', ctx.driver('dep', [CA.enc_ops(case['ops'])])[0])
+        for cls, msg, i in hits:
+            ctx.violation(vkey(cls, case), f'{cls}: {msg}', case)
     elif case.get('kind') == 'wrap':
         canon, hits = WR.run_case(case['case'])
         print('impl  :', canon)
